@@ -21,6 +21,11 @@ def main(tier, t0):
     tasks = []
     for opt in (QUICK_OPTS if tier == "quick" else THOROUGH_OPTS):
         tasks += stage_check.tasks_for("C13", tier, scenario="pair:" + opt, sizes=_sizes, structure_filter=_quick_structs if tier == "quick" else None)
+    # the presentation options again while IRI stems and examples are printed (both runs of the real pipeline of every witness; judged on the real outputs)
+    ctx_structs = lambda st: st["name"] in ("opt-literal", "ref-vs-iri", "multi-typed", "incoming-cards", "bnode-and-typed-iri")
+    for opt in ("disable_comments", "report=abs", "report=ratio", "decimals=2"):
+        tasks += stage_check.tasks_for("C13", tier, scenario="pair:" + opt, sizes=lambda t, k: [k + 1], structure_filter=ctx_structs, label="with-stems-and-examples",
+                                       cfg={"real_context": {"detect_minimal_iri": True, "examples_mode": "all"}, "fixed_flags": {"allow_opt_cardinality": True, "disable_exact_cardinality": False}})
     tasks += [("harness.api", "run_history", "api/" + n, dict(name=n)) for n in ("file-vs-string", "file-vs-string-10000-lines")]   # 'output file vs string' (concrete, as C18)
     return stage_check.main("C13", tier, t0, tasks=tasks,
                             explanation="one symbolic input evaluated under a pair of configurations differing in one option (remaining switches symbolic): presentation options leave the parsed "
